@@ -46,14 +46,23 @@ def gen_epochs(rng: random.Random, tier: str) -> dict:
     # pile-up mode (a third of the cases): tiny memtables, a sync policy that leaves an unsynced tail, put_sync from
     # inside the simulation and bursts in every epoch, so that several memtables are in flight at once, one flush
     # call installs more than one SSTable, and crashes at quiescence find operations that were flushed but never synced
-    pile_up = rng.random() < 0.34
+    mode = rng.random()
+    pile_up = mode < 0.34
+    # sync-into-compaction mode (a fifth of the cases): calm generator writers whose flushes start compactions
+    # (threshold 2) plus clients that write batches of put_sync, so that a synchronous flush + compaction falls
+    # inside the write latency of a running generator compaction and overwrites keys among its inputs
+    sync_compact = 0.34 <= mode < 0.56
     policy = rng.choice(["batch", "batch", "periodic"]) if pile_up else rng.choice(["every", "batch", "batch", "periodic"])
     cfg = gen_lsm_cfg(rng, kind, wal=True, wal_policy=policy)
     cfg["memtable_size"] = rng.choice([1, 1, 2]) if pile_up else rng.choice([1, 2, 3, 3, 4, 10])
+    if sync_compact:
+        cfg["memtable_size"] = rng.choice([1, 2, 3])
     if kind == "size_tiered":
         cfg["strategy"]["min_sstables"] = rng.choice([2, 3, 4, 6, 50])
     else:
         cfg["strategy"]["level_0_max"] = rng.choice([2, 3, 4, 6, 50])
+    if sync_compact:
+        cfg["strategy"]["min_sstables" if kind == "size_tiered" else "level_0_max"] = 2
     keys = gen_keys(rng, 2, 6)
     scale = cfg["sstable_write_latency"]
     mix = dict(MIX)
@@ -74,6 +83,16 @@ def gen_epochs(rng: random.Random, tier: str) -> dict:
             clients.append(
                 {"start": gen_think(rng, 2 * scale), "ops": gen_client_ops(rng, keys, max(1, total // n_clients), scale, mix, scans=False)}
             )
+        if sync_compact:
+            for _ in range(rng.randint(1, 2)):
+                ops = []
+                for _ in range(rng.randint(2, 5)):
+                    batch = [[0.0, "put_sync", rng.choice(keys)] for _ in range(rng.randint(1, 4))]
+                    batch[0][0] = gen_think(rng, scale)
+                    ops += batch
+                    if rng.random() < 0.5:
+                        ops.append([gen_think(rng, scale), rng.choice(["get", "get_sync"]), rng.choice(keys)])
+                clients.append({"start": gen_think(rng, 2 * scale), "ops": ops})
         if pile_up or rng.random() < 0.4:
             clients += gen_burst_clients(rng, keys, scale, mix, scans=False, max_clients=6)
         if e > 0 and rng.random() < 0.6:
